@@ -1,6 +1,7 @@
 package main
 
 import (
+	"go/ast"
 	"encoding/json"
 	"fmt"
 	"go/types"
@@ -484,7 +485,13 @@ func runCheck(repo, mode string, args []string) int {
 	_ = closureFuncs
 	var inSet map[string]bool // functions in the dependency closure of the property
 	perFunc := map[*FuncEnc][]*Obl{}
+	// a small helper without contract that every caller inlines is checked where it is inlined (with the caller's knowledge
+	// of its arguments); checking it once more on its own, with no precondition, would only report what its callers exclude
+	inlinedOnly := e.inlinedOnly(encs)
 	for _, fe := range encs {
+		if inlinedOnly[fe.name] {
+			continue
+		}
 		for _, o := range fe.obls {
 			if prop != "" && !contains(o.Props, prop) {
 				continue
@@ -562,7 +569,7 @@ func runCheck(repo, mode string, args []string) int {
 			have[o] = true
 		}
 		for _, fe := range encs {
-			if !inSet[fe.name] {
+			if !inSet[fe.name] || inlinedOnly[fe.name] {
 				continue
 			}
 			for _, o := range fe.obls {
@@ -679,6 +686,84 @@ func runCheck(repo, mode string, args []string) int {
 		}
 	}
 	return e.report(prop, tier, selected, encs, engineErrs, header, dir, time.Since(start), mode == "verify")
+}
+
+// inlinedOnly: functions without contract, loop-free and small, that are only ever called statically from repo functions
+// every one of which inlined them.
+func (e *Engine) inlinedOnly(encs []*FuncEnc) map[string]bool {
+	byName := map[string]*FuncEnc{}
+	for _, fe := range encs {
+		byName[fe.name] = fe
+	}
+	callers := map[*ssa.Function][]*ssa.Function{}
+	valueUse := map[*ssa.Function]bool{}
+	for _, fn := range e.funcs {
+		for _, b := range fn.Blocks {
+			for _, in := range b.Instrs {
+				if call, ok := in.(ssa.CallInstruction); ok {
+					if c := call.Common().StaticCallee(); c != nil && !call.Common().IsInvoke() {
+						callers[c] = append(callers[c], fn)
+					}
+					for _, a := range call.Common().Args {
+						if f, ok := a.(*ssa.Function); ok {
+							valueUse[f] = true
+						}
+					}
+					continue
+				}
+				for _, op := range in.Operands(nil) {
+					if op != nil && *op != nil {
+						if f, ok := (*op).(*ssa.Function); ok {
+							valueUse[f] = true
+						}
+					}
+				}
+			}
+		}
+	}
+	out := map[string]bool{}
+	for name, fn := range e.funcs {
+		if e.contracts[name] != nil || valueUse[fn] || len(callers[fn]) == 0 || len(fn.Blocks) == 0 || strings.HasPrefix(fn.Name(), "init") {
+			continue
+		}
+		if fn.Signature.Recv() != nil && ast.IsExported(fn.Name()) {
+			continue // may implement an interface method: called by dynamic dispatch as well
+		}
+		if len(analyzeCFG(fn).loops) > 0 || e.isRecursive(fn) {
+			continue
+		}
+		n := 0
+		for _, b := range fn.Blocks {
+			n += len(b.Instrs)
+		}
+		if n > 80 {
+			continue
+		}
+		ok := true
+		for _, c := range callers[fn] {
+			cfe := byName[e.fnames[c]]
+			if cfe == nil || !cfe.inlined[name] {
+				// a caller that is itself only inlined is covered through its own callers
+				if cfe != nil && e.contracts[e.fnames[c]] == nil && out[e.fnames[c]] {
+					continue
+				}
+				ok = false
+				break
+			}
+		}
+		if ok {
+			out[name] = true
+		}
+	}
+	if debugInlinedOnly {
+		var ns []string
+		for n := range out {
+			ns = append(ns, n)
+		}
+		sort.Strings(ns)
+		fmt.Fprintln(os.Stderr, "inlined-only helpers:", ns)
+	}
+	return out
 }
 
 // ---------------------------------------------------------------------
@@ -1078,3 +1163,11 @@ func (fe *FuncEnc) exitPoints(f *Frame) []retInfo {
 	}
 	return out
 }
+
+func init() {
+	if os.Getenv("VERIF_DEBUG_INLINEDONLY") != "" {
+		debugInlinedOnly = true
+	}
+}
+
+var debugInlinedOnly bool
